@@ -197,14 +197,17 @@ func fnAttribute(r *fnRec) (sigs []string, note string) {
 	if inspectBodyHazard(r.FN) {
 		found[hzInspectBody] = true
 	}
-	if len(found) == 0 {
-		return []string{unexplained}, "no known hazard in the function"
-	}
-	fails := func(keep string) (bool, bool) {
-		t := neutralise(fnStmt(deepCopy(any(r.FN)).(J)), "C", keep)
+	test := func(set map[string]bool) (bool, bool) {
+		t := neutraliseSet(fnStmt(deepCopy(any(r.FN)).(J)), "C", set)
 		fn := t[0].(J)
-		if keep != hzInspectBody && inspectBodyHazard(fn) {
-			fn["body"] = []any{deepCopy(any(neutralID))}
+		if set[hzInspectBody] && inspectBodyHazard(fn) {
+			// braces are forced by a second statement; the original statement stays as it is
+			body := fn["body"].([]any)
+			if len(body) == 1 && !(body[0].(J)["k"] == "ret" && body[0].(J)["e"].(J)["k"] == "none") {
+				fn["body"] = []any{body[0], deepCopy(any(neutralStmt))}
+			} else {
+				fn["body"] = append([]any{deepCopy(any(neutralStmt))}, body...)
+			}
 		}
 		src, ok := safeRender([]any{fn})
 		if !ok {
@@ -222,25 +225,5 @@ func fnAttribute(r *fnRec) (sigs []string, note string) {
 		}
 		return false, false
 	}
-	still, ok := fails("")
-	if !ok {
-		return sortedKeys(found), "attribution by feature presence only (function not renderable)"
-	}
-	if still {
-		return []string{unexplained}, "still fails with the hazards " + strings.Join(sortedKeys(found), ",") + " neutralised"
-	}
-	if len(found) == 1 {
-		return sortedKeys(found), ""
-	}
-	for _, hz := range append(append([]string{}, hazardOrder...), hzInspectBody) {
-		if found[hz] {
-			if f, ok := fails(hz); ok && f {
-				sigs = append(sigs, hz)
-			}
-		}
-	}
-	if len(sigs) == 0 {
-		return sortedKeys(found), "fails only in combination"
-	}
-	return sigs, ""
+	return attribute(found, append(append([]string{}, hazardOrder...), hzInspectBody), unexplained, test)
 }
